@@ -1,6 +1,6 @@
 SPECIFICATION Spec
 CONSTANT Cfg <- MCCfg3
-CONSTANT MaxD = 3
+CONSTANT MaxD = 2
 CONSTANT Symmetric = FALSE
 CONSTANT Extra = 2
 INVARIANT TypeOK
